@@ -26,6 +26,14 @@ What is proved (level: translation validation):
   (breadth-first level, AND first), the stable sort by `AssignLevels` Yao
   levels, and the GMW evaluator's (AND-depth level, non-AND first) schedule
   are such orders.
+* `C09_levels_bounded`, `C09_wrapped_levels_not_topological`,
+  `C09_wrapped_levels_wrong_output`: the level theorems count in `Nat`, the
+  code in a fixed-width field.  With a `k`-bit field the sort is the one of
+  `C09_levels` as long as every level is below `2^k`; for every `k ≥ 1` the
+  chain of depth `2^k + 1` is sorted into a non-topological order that
+  computes a wrong value.  (The check generates programs whose circuits are
+  deeper than `2^16` / `2^17` levels and runs `absRun` on the real compiled
+  circuits.)
 * `C09_constPropagate_preserves`, `C09_shortCircuit_preserves`,
   `C09_prune_preserves`, `C09_compile_preserves_partial`,
   `C09_pipeline_preserves`: direct models (`Model/Passes.lean`) of the four
@@ -45,6 +53,7 @@ import MpcVerif.Proofs.PassPrune
 import MpcVerif.Proofs.PassSC
 import MpcVerif.Proofs.PassCompile
 import MpcVerif.Proofs.PassWF
+import MpcVerif.Proofs.LevelsWrap
 
 namespace Mpc
 
@@ -154,6 +163,81 @@ theorem C09_levels (c : Circuit) (lv : List Nat) (hssa : SSA c.numWires c.gates 
     rw [compileLe_iff]
     simp only [cKey]
     split <;> split <;> omega
+
+/-! ### Where the level model meets the code: the width of the level field
+
+`C09_levels` is about levels in `Nat`; `circuits.Gate.Level` is a fixed-width
+Go integer that `Gate.Visit` fills with `level` (truncated to the field's
+width if the field is narrower than `int`).  `compileSortW k` is the sort
+with a `k`-bit field.  The side condition under which the theorem transfers
+to the code is that no level reaches `2^k`; beyond it the statement is false
+for every `k`.  The harness measures the largest level of every compiled
+circuit (`max_compile_level_*`), generates programs whose circuits are deeper
+than `2^16` / `2^17` levels (extreme-shape class), and re-checks strictness
+and topological order on the real compiled circuit of each (`topo` ops, the
+proved checker `absRun`). -/
+
+/-- **No-overflow side condition.**  While every level fits the `k`-bit
+field, `Compile`'s sort on the stored levels is the sort of `C09_levels`:
+topological, same value on every wire. -/
+theorem C09_levels_bounded (k : Nat) (c : Circuit) (lv : List Nat)
+    (hssa : SSA c.numWires c.gates c.inputDefined) (hlen : c.gates.length ≤ lv.length)
+    (hstrict : strictLevels c.nIn (c.gates.zip lv) = true) (hb : ∀ l ∈ lv, l < 2 ^ k) (x : List Bool) :
+    let c' : Circuit := { c with gates := (compileSortW k (c.gates.zip lv)).map Prod.fst }
+    SSA c'.numWires c'.gates c'.inputDefined ∧
+    (∀ w, (c'.plainEval x).get w = (c.plainEval x).get w) ∧ c'.compute x = c.compute x := by
+  have hid : wrapLv k (c.gates.zip lv) = c.gates.zip lv :=
+    wrapLv_id k _ (fun p hp => hb p.2 (List.of_mem_zip (a := p.1) (b := p.2) hp).2)
+  simp only [compileSortW, hid]
+  exact C09_levels c lv hssa hlen hstrict x
+
+/-- **Beyond the bound the sort is not topological** (a family of witnesses,
+one for every field width `k ≥ 1`).  The chain of `2^k + 1` dependent gates
+satisfies every hypothesis of `C09_levels` – single assignment, topological
+order, strict levels `0 … 2^k` – but after `Compile`'s stable sort by the
+levels a `k`-bit field stores, the gate of true level `2^k` (stored level 0)
+stands before the gate that drives it: the sorted list is rejected by
+`wfFrom` and by the checker `absRun`, i.e. the sequential evaluators
+(`Circuit.Compute`, the GMW evaluator) read a wire that has not been
+computed yet. -/
+theorem C09_wrapped_levels_not_topological (k : Nat) (hk : 0 < k) :
+    let c := invChain (2 ^ k + 1)
+    let lv := List.range (2 ^ k + 1)
+    let c' : Circuit := { c with gates := (compileSortW k (c.gates.zip lv)).map Prod.fst }
+    SSA c.numWires c.gates c.inputDefined ∧ c.gates.length ≤ lv.length ∧
+    strictLevels c.nIn (c.gates.zip lv) = true ∧
+    wfFrom c'.numWires c'.gates c'.inputDefined = false ∧ (c'.absRun #[]).isSome = false := by
+  intro c lv c'
+  have hnwf := wrapped_sort_not_wf k hk
+  refine ⟨invChain_ssa _, by simp [c, lv, invChain, invChainGates_length], invChain_strict _, hnwf, ?_⟩
+  cases h : (c'.absRun #[]).isSome with
+  | false => rfl
+  | true =>
+    have := (C09_absRun_ssa c' #[] (by simp [c', c, invChain]) h).1
+    rw [show wfFrom c'.numWires c'.gates c'.inputDefined = false from hnwf] at this
+    exact absurd this (by decide)
+
+/-- … **and the value is wrong**: on that chain the sorted gate list makes the
+sequential evaluator output `true` for both inputs, while the circuit
+computes `¬ x` (an odd number of negations).  So for every field width
+`k ≥ 1` there is a circuit and an input (`x = true`) on which `Compile`'s
+sort with a `k`-bit level field changes the result – the GMW target, the only
+one that sorts, would differ from the Yao target. -/
+theorem C09_wrapped_levels_wrong_output (k : Nat) (hk : 0 < k) :
+    let c := invChain (2 ^ k + 1)
+    let c' : Circuit := { c with gates := (compileSortW k (c.gates.zip (List.range (2 ^ k + 1)))).map Prod.fst }
+    c'.compute [true] = [true] ∧ c.compute [true] = [false] ∧ c'.compute [true] ≠ c.compute [true] := by
+  intro c c'
+  obtain ⟨h1, h2⟩ := wrapped_sort_wrong_output k hk true
+  refine ⟨h1, h2, ?_⟩
+  show c'.compute [true] ≠ c.compute [true]
+  rw [show c'.compute [true] = [true] from h1, show c.compute [true] = [false] from h2]
+  decide
+
+/-- The driver evaluates circuits through an array-built initial store
+(linear in the number of input bits); it is `Circuit.compute`. -/
+theorem C09_computeArr_eq (c : Circuit) (x : List Bool) : c.computeArr x = c.compute x :=
+  computeArr_eq c x
 
 /-- Position form of the level property of `AssignLevels`: a consumer's level
 is at least its producer's level plus 1 (Yao) resp. plus 1 for AND producers
@@ -431,5 +515,23 @@ by well-founded recursion and does not reduce in the kernel) -/
 example : compileLe (⟨.and, 0, 1, 5⟩, 0) (⟨.inv, 0, 0, 2⟩, 0) = true ∧
     gmwLe (⟨.and, 0, 1, 5⟩, 0) (⟨.inv, 0, 0, 2⟩, 0) = false := by decide
 example : witnessYao.WF = true ∧ witnessGmw.WF = true := by decide +kernel
+
+/-- `C09_levels_bounded` is not vacuous: `exRaw` with `exLevels` (all below `2^3`). -/
+example : ∀ l ∈ exLevels, l < 2 ^ 3 := by decide
+example (x : List Bool) :=
+  C09_levels_bounded 3 exRaw exLevels (C09_absRun_ssa exRaw #[] (by decide) (by decide +kernel)) (by decide)
+    (by decide +kernel) (by decide) x
+/-- `C09_wrapped_levels_not_topological` at `k = 1`: the chain of 3 gates, levels 0, 1, 2 stored as
+0, 1, 0 in a 1-bit field (the hypothesis `0 < k` is needed: with `k = 0` all stored levels are equal and
+the stable sort keeps the order). -/
+example := C09_wrapped_levels_not_topological 1 (by decide)
+example := C09_wrapped_levels_wrong_output 16 (by decide)
+example : (invChain 3).compute [true] = [false] := by decide +kernel
+example : (invChain 3).gates.zip (List.range 3) =
+    [(⟨.inv, 0, 0, 1⟩, 0), (⟨.inv, 1, 1, 2⟩, 1), (⟨.inv, 2, 2, 3⟩, 2)] := by decide
+/-- the order the 1-bit field produces (gate 2 ahead of gate 1) gives the wrong value: `¬¬¬true = true` -/
+example : ({ invChain 3 with gates := [⟨.inv, 0, 0, 1⟩, ⟨.inv, 2, 2, 3⟩, ⟨.inv, 1, 1, 2⟩] } : Circuit).compute [true]
+    = [true] := by decide +kernel
+example : (invChain 5).computeArr [true] = (invChain 5).compute [true] := C09_computeArr_eq _ _
 
 end Mpc
